@@ -33,6 +33,10 @@ const tContend = "TestContention"
 //	read-vs-append:  goroutine 0 creates "f", appends 4 bytes and then 6 × 70000 bytes while the
 //	                 others Open it and ReadAt the whole file in a loop
 //	                 → every read returns the contents after a whole number of appends
+//	link-delete-list (MemFs): goroutine 0 Link("s" → "t") (a panic = source already gone),
+//	                 goroutine 1 Delete("s"), the others List the directory in a loop
+//	                 → every observer sees {s}* {s,t}* {t}* and the link succeeded, or {s}* {}* and
+//	                 it did not; never {} before {t}, never {t} after a failed Link
 type ContendCase struct {
 	Impl   string `json:"impl"`
 	Mode   string `json:"mode"`
@@ -60,7 +64,7 @@ func runContend(c ContendCase) (msg string, inconcl string) {
 	for r := 0; r < c.Rounds; r++ {
 		dir := fmt.Sprintf("d%d", r)
 		fs.Mkdir(dir)
-		if c.Mode == "same-link" || c.Mode == "link-vs-atomic" {
+		if c.Mode == "same-link" || c.Mode == "link-vs-atomic" || c.Mode == "link-delete-list" {
 			fs.AtomicCreate(dir, "s", []byte("src"))
 		}
 		var shared filesys.File
@@ -76,6 +80,9 @@ func runContend(c ContendCase) (msg string, inconcl string) {
 		panics := make([]string, c.K)
 		detail := make([]string, c.K)
 		var ready, created, writerDone int32
+		var opsDone int32
+		linkOK := false
+		seen := make([][]string, c.K) // link-delete-list: the states each observer saw, in order
 		var wg sync.WaitGroup
 		for i := 0; i < c.K; i++ {
 			wg.Add(1)
@@ -93,6 +100,42 @@ func runContend(c ContendCase) (msg string, inconcl string) {
 					}
 				}
 				switch c.Mode {
+				case "link-delete-list":
+					switch i {
+					case 0:
+						func() {
+							defer func() {
+								recover() // the source was deleted first: a caller error, not a failure
+								atomic.AddInt32(&opsDone, 1)
+							}()
+							linkOK = fs.Link(dir, "s", dir, "t")
+						}()
+					case 1:
+						fs.Delete(dir, "s")
+						atomic.AddInt32(&opsDone, 1)
+					default:
+						for n := 0; n < 100000; n++ {
+							last := atomic.LoadInt32(&opsDone) == 2
+							st := ""
+							for _, nm := range fs.List(dir) {
+								if nm == "s" || nm == "t" {
+									st += nm
+								}
+							}
+							if st == "ts" {
+								st = "st"
+							}
+							if st == "" {
+								st = "-"
+							}
+							if k := len(seen[i]); k == 0 || seen[i][k-1] != st {
+								seen[i] = append(seen[i], st)
+							}
+							if last {
+								break
+							}
+						}
+					}
 				case "link-vs-atomic":
 					if i == 0 {
 						for j := 0; j < 20; j++ {
@@ -209,6 +252,34 @@ func runContend(c ContendCase) (msg string, inconcl string) {
 			}
 		}
 		switch c.Mode {
+		case "link-delete-list":
+			final := ""
+			for _, nm := range fs.List(dir) {
+				final += nm
+			}
+			if final == "" {
+				final = "-"
+			}
+			rank := map[string]int{"s": 0, "st": 1, "t": 2}
+			want := "t"
+			if !linkOK {
+				rank, want = map[string]int{"s": 0, "-": 1}, "-"
+			}
+			for i := 2; i < c.K; i++ {
+				all := append(append([]string{}, seen[i]...), final)
+				prev := -1
+				for _, st := range all {
+					rk, ok := rank[st]
+					if !ok || rk < prev {
+						return fmt.Sprintf("round %d: Link(\"s\" → \"t\") returned %v concurrently with Delete(\"s\"); observer %d saw the directory go through %v (\"-\" = neither name) and finally %q; with Link=%v the only linearizable sequences are %s", r, linkOK, i, seen[i], final, linkOK,
+							map[bool]string{true: "s → st → t", false: "s → - (the Delete came first)"}[linkOK]), ""
+					}
+					prev = rk
+				}
+			}
+			if final != want {
+				return fmt.Sprintf("round %d: Link(\"s\" → \"t\") returned %v concurrently with Delete(\"s\") but the directory finally lists %q, want %q", r, linkOK, final, want), ""
+			}
 		case "shared-append":
 			fs.Close(shared)
 			f := fs.Open(dir, "log")
@@ -347,8 +418,16 @@ func TestContention(t *testing.T) {
 	rapid.Check(t, func(t *rapid.T) {
 		c := ContendCase{
 			Impl: rapid.SampledFrom([]string{"mem", "mem", "dir"}).Draw(t, "impl"),
-			Mode: rapid.SampledFrom([]string{"same-create", "same-link", "distinct-create", "create-vs-atomic", "link-vs-atomic", "read-vs-append", "shared-append"}).Draw(t, "mode"),
+			Mode: rapid.SampledFrom([]string{"same-create", "same-link", "distinct-create", "create-vs-atomic", "link-vs-atomic", "read-vs-append", "shared-append", "link-delete-list"}).Draw(t, "mode"),
 			K:    rapid.IntRange(2, 8).Draw(t, "k"),
+		}
+		if c.Mode == "link-delete-list" {
+			// MemFs only: a directory scan of the host file system concurrent with link/unlink may
+			// legitimately miss or repeat entries, List of the in-memory file system is one critical section
+			c.Impl = "mem"
+			if c.K < 3 {
+				c.K = 3
+			}
 		}
 		if c.Mode == "link-vs-atomic" && c.Impl == "dir" && models.KnownSwitch(swK1) {
 			// known finding K1: DirFs.Link fails spuriously while its source name is being replaced
